@@ -4,14 +4,14 @@ use crate::support::*;
 use educe::Educe;
 use core::cmp::Ordering;
 #[derive(Educe)]
-#[repr(isize)]
-#[educe(PartialEq, Eq, Ord)]
-pub enum T { Zed = -170 }
-impl PartialOrd for T { fn partial_cmp(&self, o: &Self) -> Option<Ordering> { Some(::core::cmp::Ord::cmp(self, o)) } }
-pub fn values() -> Vec<T> { vec![T::Zed] }
-pub fn show(x: &T) -> String { #[allow(unused_variables)] match x { T::Zed => format!("Zed()") } }
-pub fn o_disc(x: &T) -> i128 { match x { T::Zed => -170 } }
-pub fn o_cmp(a: &T, b: &T) -> Ordering { match (a, b) { (T::Zed, T::Zed) => {  Ordering::Equal } } }
+#[repr(C, u8)]
+#[educe(Eq, Ord, PartialEq, PartialOrd)]
+pub enum T { B, C(char) }
+
+pub fn values() -> Vec<T> { vec![T::B, T::C('a'), T::C('z')] }
+pub fn show(x: &T) -> String { #[allow(unused_variables)] match x { T::B => format!("B()"), T::C(p0) => format!("C({})", sv(p0)) } }
+pub fn o_disc(x: &T) -> i128 { match x { T::B => 0, T::C(_) => 1 } }
+pub fn o_cmp(a: &T, b: &T) -> Ordering { match (a, b) { (T::B, T::B) => {  Ordering::Equal }, (T::C(a0), T::C(b0)) => { let c = ::core::cmp::Ord::cmp(a0, b0); if c != Ordering::Equal { return c; } Ordering::Equal }, _ => o_disc(a).cmp(&o_disc(b)) } }
 #[repr(C)] pub struct Wrap { pub pre: u8, pub x: T, pub post: [u8; 9] }
 pub fn wrap(i: usize, n: u8) -> Wrap { Wrap { pre: n, x: values().swap_remove(i), post: [n; 9] } }
-pub fn run(out: &mut Out) { let vs = values(); for (i, a) in vs.iter().enumerate() { for (j, b) in vs.iter().enumerate() { let e = o_cmp(a, b); let g = ::core::cmp::Ord::cmp(a, b); out.check(g == e, "ordlayout_3", "cmp", || format!("cmp({}, {}) = {:?} expected {:?}", show(a), show(b), g, e)); for n in [0u8, 1, 0x7f, 0x80, 0xff] { let wa = wrap(i, n); let wb = wrap(j, !n); let g = ::core::cmp::Ord::cmp(&wa.x, &wb.x); let e = o_cmp(a, b); out.check(g == e, "ordlayout_3", "cmp_neighbours", || format!("cmp({}, {}) with neighbour bytes {} = {:?} expected {:?}", show(a), show(b), n, g, e)); } } } }
+pub fn run(out: &mut Out) { let vs = values(); for (i, a) in vs.iter().enumerate() { for (j, b) in vs.iter().enumerate() { let e = o_cmp(a, b); let g = ::core::cmp::Ord::cmp(a, b); out.check(g == e, "ordlayout_3", "cmp", || format!("cmp({}, {}) = {:?} expected {:?}", show(a), show(b), g, e)); let g2 = ::core::cmp::PartialOrd::partial_cmp(a, b); out.check(g2 == Some(e), "ordlayout_3", "partial_is_some_cmp", || format!("partial_cmp({}, {}) = {:?} expected Some({:?})", show(a), show(b), g2, e)); for n in [0u8, 1, 0x7f, 0x80, 0xff] { let wa = wrap(i, n); let wb = wrap(j, !n); let g = ::core::cmp::Ord::cmp(&wa.x, &wb.x); let e = o_cmp(a, b); out.check(g == e, "ordlayout_3", "cmp_neighbours", || format!("cmp({}, {}) with neighbour bytes {} = {:?} expected {:?}", show(a), show(b), n, g, e)); } } } }
